@@ -16,15 +16,29 @@ DIRECT = 'container:Container.add_streamed_objects_to_pack'
 
 
 def set_valued_names(fn):
-    """Local names that are initialised as sets (`x = set()` / `x = set(...)` / `x: set[...] = ...`)."""
+    """Local names that are (possibly) sets: `x = set()` / `x = set(...)` / `x = <anything> or set()` / `x = y = set()` / a set comprehension, or a
+    name that has `.add(...)` called on it and is used as the right operand of `in`."""
     out = set()
+
+    def setlike(v):
+        if isinstance(v, ast.Call) and norm(v.func) in ('set', 'frozenset'):
+            return True
+        if isinstance(v, (ast.Set, ast.SetComp)):
+            return True
+        if isinstance(v, ast.BoolOp):
+            return any(setlike(x) for x in v.values)
+        if isinstance(v, ast.IfExp):
+            return setlike(v.body) or setlike(v.orelse)
+        return False
     for n in walk_local(fn.node):
         if isinstance(n, (ast.Assign, ast.AnnAssign)):
-            tgt = n.targets[0] if isinstance(n, ast.Assign) and len(n.targets) == 1 else getattr(n, 'target', None)
+            tgts = n.targets if isinstance(n, ast.Assign) else [n.target]
             v = n.value
-            if isinstance(tgt, ast.Name) and v is not None and ((isinstance(v, ast.Call) and norm(v.func) in ('set', 'frozenset')) or isinstance(v, (ast.Set, ast.SetComp))):
-                out.add(tgt.id)
-    return out
+            if v is not None and setlike(v):
+                out.update(t.id for t in tgts if isinstance(t, ast.Name))
+    adds = {n.func.value.id for n in walk_local(fn.node) if isinstance(n, ast.Call) and isinstance(n.func, ast.Attribute) and n.func.attr == 'add' and isinstance(n.func.value, ast.Name)}
+    ins = {n.comparators[0].id for n in walk_local(fn.node) if isinstance(n, ast.Compare) and len(n.ops) == 1 and isinstance(n.ops[0], (ast.In, ast.NotIn)) and isinstance(n.comparators[0], ast.Name)}
+    return out | (adds & ins)
 
 
 class AppendHandleMachine(Machine):
@@ -305,7 +319,27 @@ def known_set_accumulation(ctx, chk, rule):
                 and _enclosing_loop(n) is not None and 'hashkey' in norm(n.left) and n.comparators[0].id in set_valued_names(fn):
             known.add(n.comparators[0].id)
     chk.require(known, f'{DIRECT}: known-keys set not found')
+    CONFIG = ('hash_type', 'loose_prefix_len', 'pack_size_target', 'compression_algorithm')
+
+    def handle_state(e):
+        called = {id(c.func) for c in ast.walk(e) if isinstance(c, ast.Call)}
+        out = [x for x in ast.walk(e) if isinstance(x, ast.Attribute) and isinstance(x.value, ast.Name) and x.value.id == 'self' and id(x) not in called
+               and not x.attr.isupper() and not x.attr.startswith('_MAX') and not x.attr.startswith('_IN_SQL') and x.attr not in CONFIG]
+        out += [x for x in ast.walk(e) if isinstance(x, ast.Call) and norm(x.func) in ('getattr', 'vars') and x.args and norm(x.args[0]) == 'self']
+        out += [x for x in ast.walk(e) if isinstance(x, ast.Attribute) and x.attr == '__dict__' and norm(x.value) == 'self']
+        return out
     for k in sorted(known):
+        # the set of already packed keys is rebuilt from the index by every call: it must neither come from the handle nor be stored on it
+        for n in walk_local(fn.node):
+            if isinstance(n, (ast.Assign, ast.AnnAssign)) and n.value is not None:
+                tgts = n.targets if isinstance(n, ast.Assign) else [n.target]
+                if any(isinstance(t, ast.Name) and t.id == k for t in tgts) and handle_state(n.value):
+                    chk.bad(rule, DIRECT, norm(n)[:110], f'the set of already packed keys `{k}` is taken from `{norm(handle_state(n.value)[0])}`, state kept on the handle between calls: a key deleted (or a row id '
+                            'reused) since the set was built is still "known", so re-adding that content returns its key but stores nothing', where=f'{fn.module.relpath}:{n.lineno}')
+                if any(isinstance(t, ast.Attribute) and isinstance(t.value, ast.Name) and t.value.id == 'self' for t in tgts) and \
+                        (any(isinstance(x, ast.Name) and x.id == k for x in ast.walk(n.value)) or any(isinstance(t, ast.Name) and t.id == k for t in tgts)):
+                    chk.bad(rule, DIRECT, norm(n)[:110], f'the set of already packed keys `{k}` is stored on the handle: it outlives the call and goes stale as soon as anything is deleted, repacked or written '
+                            'through another handle', where=f'{fn.module.relpath}:{n.lineno}')
         inits, rebinds, accs = [], [], []
         for n in walk_local(fn.node):
             if isinstance(n, (ast.Assign, ast.AnnAssign)):
